@@ -472,10 +472,12 @@ import importlib as _il
 JOBS = list(JOBS) + [j for j in _il.import_module("units.c11").JOBS if "quick" in j.tiers and not j.name.endswith(".forwarders")]
 # a pthread entry point behaves like its system counterpart only if the body it forwards to keeps its contract: the jobs
 # of the bodies behind the supported subset (create/join/detach, mutex, condition variable, barrier, once) are part of
-# this check; the jobs themselves belong to C01, C04, C05, C06, C12, C14
+# this check; the jobs themselves belong to C01, C04, C05, C06, C12, C14, C20 (sleeping) and C02 (yield)
 _seen = set(j.name for j in JOBS)
-for _u in ("c01", "c04", "c05", "c06", "c12", "c14"):
+for _u in ("c01", "c04", "c05", "c06", "c12", "c14", "c20", "c02"):
     for _j in _il.import_module("units." + _u).JOBS:
+        if _u == "c02" and _j.name not in ("c02.yield", "c02.sched_loop", "c02.default_steal"):
+            continue                      # of the run queue unit only the scheduler glue behind sched_yield / pthread_yield
         if "quick" in _j.tiers and not _j.name.endswith(".forwarders") and _j.name not in _seen:
             _seen.add(_j.name)
             JOBS.append(_j)
